@@ -12,6 +12,12 @@ pub fn check(name: &str, case: &Value, v: &Violation) -> bool {
                 && case.get("ptype").and_then(|t| t.as_u64()) == Some(7)
                 && case.get("names").and_then(|n| n.as_array()).and_then(|a| a.first()).and_then(|x| x.as_str()).map(|n| crate::gen::names::heck_pascal(&n.replace('\'', "").replace(|c: char| !unicode_ident::is_xid_continue(c), "-")).is_empty()).unwrap_or(false)
         }
+        // KF-025: an identifier character the pinned rustc (Unicode 15.1) does not know yet
+        "identifier_char_unknown_to_pinned_rustc" => (v.detail.contains("unknown start of token") || v.detail.contains("identifiers cannot contain")) && !case.to_string().is_ascii(),
+        // KF-026: a definition called `Default` shadows the trait the generated code names unqualified
+        "definition_named_default" => any_schema_node(case, &mut |o| o.keys().any(|k| crate::gen::names::sanitize_like(k, true) == "Default") && o.values().all(|x| x.is_object() || x.is_boolean())) && (v.detail.contains("Default") || v.detail.contains("default")),
+        // KF-027: a bidirectional-control character of the schema text ends up in a doc comment
+        "bidi_control_in_doc_comment" => v.detail.contains("text_direction_codepoint"),
         "root_title_is_also_a_definition" => case.get("history").and_then(|h| h.as_array()).map(|steps| steps.iter().any(|st| {
             let Some(doc) = st.get("doc") else { return false };
             match (doc.get("title").and_then(|t| t.as_str()), doc.get("definitions").and_then(|d| d.as_object())) {
@@ -127,9 +133,15 @@ fn union_branches_share_prop(case: &Value) -> bool {
             for (i, a) in bs.iter().enumerate() {
                 for b in bs.iter().skip(i + 1) {
                     let (Some(pa), Some(pb)) = (a.get("properties").and_then(|p| p.as_object()), b.get("properties").and_then(|p| p.as_object())) else { continue };
+                    // adjacently tagged wrappers: the payload types are named after the variants
+                    let wrapper = |ps: &serde_json::Map<String, Value>| ps.len() <= 2 && ps.contains_key("tag") && ps.keys().all(|k| k == "tag" || k == "content");
                     for (k, sa) in pa {
                         if let Some(sb) = pb.get(k) {
-                            if sa != sb && !(is_plain_scalar(sa) && is_plain_scalar(sb)) {
+                            if wrapper(pa) && wrapper(pb) {
+                                continue;
+                            }
+                            // both sides must need a generated (named) type for the clash to arise
+                            if sa != sb && needs_named_type(sa) && needs_named_type(sb) {
                                 return true;
                             }
                         }
@@ -141,12 +153,38 @@ fn union_branches_share_prop(case: &Value) -> bool {
     })
 }
 
+/// Does an in-line schema make typify generate a named type (struct, enum, constrained newtype)?
+fn needs_named_type(s: &Value) -> bool {
+    let Some(o) = s.as_object() else { return false };
+    if o.contains_key("$ref") {
+        return false;
+    }
+    if o.get("properties").and_then(|p| p.as_object()).map(|p| !p.is_empty()).unwrap_or(false) || o.contains_key("oneOf") || o.contains_key("anyOf") || o.contains_key("allOf") || o.contains_key("not") {
+        return true;
+    }
+    if o.get("enum").and_then(|e| e.as_array()).map(|e| e.len() >= 2).unwrap_or(false) {
+        return true;
+    }
+    if o.contains_key("pattern") || o.contains_key("minLength") || o.contains_key("maxLength") {
+        return true;
+    }
+    match o.get("items") {
+        Some(Value::Array(items)) => items.iter().any(needs_named_type),
+        Some(item) => needs_named_type(item),
+        None => o.get("additionalProperties").map(needs_named_type).unwrap_or(false),
+    }
+}
+
 /// KF-002: a oneOf whose branches contain both a closed struct-like object
 /// (additionalProperties: false) and an open one, looking at the branch and
 /// at the payload one level below.
 fn union_mixes_open_closed(case: &Value) -> bool {
     fn collect(v: &Value, depth: usize, closed: &mut bool, open: &mut bool) {
         let Some(o) = v.as_object() else { return };
+        // a conjunction of objects is an open struct as well
+        if o.get("allOf").and_then(|b| b.as_array()).map(|bs| bs.iter().any(|b| b.get("type") == Some(&Value::String("object".into())) || b.get("properties").is_some() || b.get("$ref").is_some())).unwrap_or(false) {
+            *open = true;
+        }
         if let Some(ps) = o.get("properties").and_then(|p| p.as_object()) {
             match o.get("additionalProperties") {
                 Some(Value::Bool(false)) => *closed = true,
@@ -163,8 +201,26 @@ fn union_mixes_open_closed(case: &Value) -> bool {
         for key in ["oneOf", "anyOf"] {
             let Some(bs) = o.get(key).and_then(|b| b.as_array()) else { continue };
             let (mut c, mut op) = (false, false);
+            // adjacently tagged: {tag: const [, content: payload]} wrappers. Their own closedness is
+            // not represented at all (KF-007); only the payloads can mix.
+            let adjacent = bs.len() >= 2
+                && bs.iter().all(|b| {
+                    let ps = b.get("properties").and_then(|p| p.as_object());
+                    ps.map(|ps| ps.len() <= 2 && ps.contains_key("tag") && ps.keys().all(|k| k == "tag" || k == "content") && ps["tag"].get("enum").and_then(|e| e.as_array()).map(|e| e.len() == 1).unwrap_or(false)).unwrap_or(false)
+                });
             for b in bs {
-                collect(b, 0, &mut c, &mut op);
+                if adjacent {
+                    // a closed payload makes the whole enum deny unknown members, which also closes
+                    // the wrappers the schema leaves open
+                    if let Some(content) = b.get("properties").and_then(|p| p.get("content")) {
+                        collect(content, 1, &mut c, &mut op);
+                    }
+                    if b.get("additionalProperties") != Some(&Value::Bool(false)) {
+                        op = true;
+                    }
+                } else {
+                    collect(b, 0, &mut c, &mut op);
+                }
             }
             if c && op {
                 return true;
@@ -179,12 +235,27 @@ fn union_mixes_open_closed(case: &Value) -> bool {
 fn union_open_single_prop(case: &Value) -> bool {
     any_schema_node(case, &mut |o| {
         let Some(bs) = o.get("oneOf").and_then(|b| b.as_array()) else { return false };
-        bs.iter().any(|b| {
-            let Some(bo) = b.as_object() else { return false };
-            let np = bo.get("properties").and_then(|p| p.as_object()).map(|p| p.len()).unwrap_or(0);
+        // the externally tagged reading needs every object alternative to be a single required
+        // property, under pairwise distinct keys (a shared key is a tag: other taggings apply)
+        let single = |b: &Value| -> Option<(String, bool)> {
+            let bo = b.as_object()?;
+            let ps = bo.get("properties")?.as_object()?;
             let nr = bo.get("required").and_then(|p| p.as_array()).map(|p| p.len()).unwrap_or(0);
-            np == 1 && nr == 1 && bo.get("additionalProperties") != Some(&Value::Bool(false))
-        })
+            if ps.len() == 1 && nr == 1 {
+                Some((ps.keys().next()?.clone(), bo.get("additionalProperties") != Some(&Value::Bool(false))))
+            } else {
+                None
+            }
+        };
+        let objs: Vec<&Value> = bs.iter().filter(|b| b.get("properties").is_some() || b.get("type") == Some(&Value::String("object".into()))).collect();
+        let singles: Vec<(String, bool)> = objs.iter().filter_map(|b| single(b)).collect();
+        if objs.is_empty() || singles.len() != objs.len() {
+            return false;
+        }
+        let mut keys: Vec<&String> = singles.iter().map(|(k, _)| k).collect();
+        keys.sort();
+        keys.dedup();
+        keys.len() == singles.len() && singles.iter().any(|(_, open)| *open)
     })
 }
 
